@@ -38,6 +38,9 @@ type command struct {
 	id  string
 	rpc *goatorepo.Rpc
 	err error
+	// the connection reporting err: a newer connection attached under the
+	// same id must survive the failure of the one it replaced
+	client *proxyClient
 }
 
 type proxyClient struct {
@@ -112,7 +115,9 @@ func (p *Proxy) serveClients(ctx context.Context) {
 				p.forwardRpc(cmd.id, cmd.rpc)
 			} else if cmd.err != nil {
 				p.mutex.Lock()
-				delete(p.clients, cmd.id)
+				if cmd.client == nil || p.clients[cmd.id] == cmd.client {
+					delete(p.clients, cmd.id)
+				}
 				p.mutex.Unlock()
 				if p.clientDisconnect != nil {
 					p.clientDisconnect(cmd.id, cmd.err)
@@ -182,7 +187,7 @@ func (p *Proxy) forwardRpc(source string, rpc *goatorepo.Rpc) {
 // proxy is shutting down (nobody would receive the report then).
 func (c *proxyClient) report(ctx context.Context, err error) {
 	select {
-	case c.toServer <- command{id: c.id, err: err}:
+	case c.toServer <- command{id: c.id, err: err, client: c}:
 	case <-ctx.Done():
 	}
 }
